@@ -216,6 +216,9 @@ def r5(run):
         if b.is_coroutine:
             cb = b
     if cb is None:
+        # an `async fn` that never awaited may have become a plain fn
+        cb = run.facts.body(HANDLER + "::configure_read_options")
+    if cb is None:
         run.missing(HANDLER + "::configure_read_options|body", "configure_read_options not found")
         return
     run.touch(cb)
